@@ -261,10 +261,12 @@ pub fn parse_glyph(rec: &[u8]) -> Result<GlyphLite, String> {
         })
     } else {
         let mut components = Vec::new();
-        let mut last_flags;
+        // instructions follow the last component when WE_HAVE_INSTRUCTIONS is set on ANY component
+        // (the specification does not tie the flag to the last record)
+        let mut any_flags = 0u16;
         loop {
             let flags = c.u16()?;
-            last_flags = flags;
+            any_flags |= flags;
             let glyph = c.u16()?;
             let args = match (flags & ARG_1_AND_2_ARE_WORDS != 0, flags & ARGS_ARE_XY_VALUES != 0) {
                 (true, true) => Args::Xy(c.i16()?, c.i16()?),
@@ -294,7 +296,7 @@ pub fn parse_glyph(rec: &[u8]) -> Result<GlyphLite, String> {
                 return Err("more than 4096 components".into());
             }
         }
-        let instructions = if last_flags & WE_HAVE_INSTRUCTIONS != 0 {
+        let instructions = if any_flags & WE_HAVE_INSTRUCTIONS != 0 {
             let n = c.u16()? as usize;
             c.bytes(n)?.to_vec()
         } else {
